@@ -1,3 +1,4 @@
 import KoalaVerif.Model.Json
 import KoalaVerif.Model.Lattice
 import KoalaVerif.Model.Flux
+import KoalaVerif.Model.Tables
